@@ -2,6 +2,7 @@ package log
 
 import (
 	"bufio"
+	"bytes"
 	"fmt"
 	"log"
 	"os"
@@ -13,7 +14,6 @@ import (
 	"time"
 
 	"github.com/arm-doe/sts"
-	"github.com/arm-doe/sts/fileutil"
 )
 
 type logMsg struct {
@@ -364,24 +364,37 @@ func (rf *rollingFile) eachLine(handler func(string) bool,
 	return broke
 }
 
-// search will look for a given text patterns to match a single line in the log
-// history
+// search will look for a record of the file named by the first text element
+// (a record starts with the file name followed by the field separator) that
+// also contains every remaining text element, in the log history
 func (rf *rollingFile) search(text []string, start time.Time, stop time.Time) bool {
 	if len(text) == 0 {
 		return false
 	}
-	b := []byte(text[0])
-	var line string
+	prefix := []byte(text[0] + ":")
 	return rf.each(func(path string) bool {
-		line = fileutil.FindLine(path, b)
-		if line == "" {
+		fh, err := os.Open(path)
+		if err != nil {
 			return false
 		}
-		for _, t := range text[1:] {
-			if !strings.Contains(line, t) {
-				return false
+		defer fh.Close()
+		scanner := bufio.NewScanner(fh)
+	lines:
+		for scanner.Scan() {
+			line := scanner.Bytes()
+			if !bytes.HasPrefix(line, prefix) {
+				continue
 			}
+			// Keep the separator so that ":hash:" style patterns match the
+			// field right after the name
+			rest := line[len(prefix)-1:]
+			for _, t := range text[1:] {
+				if !bytes.Contains(rest, []byte(t)) {
+					continue lines
+				}
+			}
+			return true
 		}
-		return true
+		return false
 	}, start, stop)
 }
